@@ -60,6 +60,18 @@ def run(prop, case, exception_is_violation=False):
         return run_repo_tests(prop)
     contracts.clear()
     before = contracts.STATS['resolve_calls']
+    if prop == 'C09' and len(MC.describe_case(case)) % 5 == 0:
+        # other users of the hydrogen machinery in the same process (mass of a plain SMILES molecule, hydrogens of a
+        # bare fragment): nothing they do may leak into the next resolution
+        try:
+            import pysmiles
+            from cgsmiles.pysmiles_utils import compute_mass, rebuild_h_atoms
+            compute_mass(pysmiles.read_smiles(['CCO', 'c1ccccc1', 'CC(=O)[O-]', 'N'][len(MC.describe_case(case)) % 4]))
+            import cgsmiles
+            frag = cgsmiles.read_fragments('{#X=[$]CC[$]O}')['X'].copy()
+            rebuild_h_atoms(frag, keep_bonding=True)
+        except Exception:
+            pass
     contracts.CONTEXT['explicit_h_possible'] = '[H' in MC.describe_case(case)
     try:
         res = MC.execute(case)
